@@ -130,11 +130,14 @@ fn check_cli(text: &str, ast: &RAst, names: &[String], oracle: &TT) -> Result<()
     let header = p.header.ok_or("rsbdd -t printed no table")?;
     let fv: BTreeSet<String> = ast.free_vars();
     let want_header: Vec<String> = names.iter().filter(|n| fv.contains(*n)).cloned().collect();
-    if header != want_header {
-        return Err(format!(
-            "table header {:?} is not the free variables in variable order {:?}",
-            header, want_header
-        ));
+    // which order the solver chooses without an ordering file is its own business (C11 prescribes
+    // only the order of names listed in a file): the columns are matched by name
+    let mut got_sorted = header.clone();
+    got_sorted.sort();
+    let mut want_sorted = want_header.clone();
+    want_sorted.sort();
+    if got_sorted != want_sorted {
+        return Err(format!("table header {:?} is not exactly the free variables {:?}", header, want_header));
     }
     let proj = project(oracle, names, &header);
     cli::check_rows(&p.rows, &proj, 'a').map_err(|e| format!("rsbdd -t: {}", e))
